@@ -557,7 +557,7 @@ def exp_lit(e):
     return tol(e).a.coq()
 
 
-def run_case(ctx, ci, rng, cases, records):
+def run_case(ctx, ci, rng, cases, records, spec=None):
     PT = "true" if ctx.meta.get("patched") else "false"
     import cotengra as ctg
     import numpy as np
@@ -565,32 +565,50 @@ def run_case(ctx, ci, rng, cases, records):
 
     quick = ctx.quick
     # ---- the network, the tree, the sliced indices -----------------------------------
-    while True:
-        inputs, output, size_dict = gen.rand_net(rng, nmin=2, nmax=5 if quick else 6, max_ix=6, max_rank=3, dmax=3)
-        if prod(size_dict[ix] for ix in {ix for t in inputs for ix in t}) <= 2500:
-            break
-    N = len(inputs)
-    path = gen.rand_path(rng, N)
-    tree = ctg.ContractionTree.from_path(inputs, output, size_dict, path=path)
-    present = sorted({ix for t in inputs for ix in t})
-    sliced = []
-    cand = [ix for ix in present if size_dict[ix] > 1]
-    if cand and rng.random() < 0.75:
-        for ix in rng.sample(cand, rng.randint(1, min(3, len(cand)))):
+    if spec is not None:
+        # a directed case (see DIRECTED): everything is given
+        inputs = [tuple(t) for t in spec["inputs"]]
+        output = tuple(spec["output"])
+        size_dict = dict(spec["size_dict"])
+        N = len(inputs)
+        path = tuple(tuple(p) for p in spec["path"])
+        tree = ctg.ContractionTree.from_path(inputs, output, size_dict, path=path)
+        sliced = list(spec["sliced"])
+        for ix in sliced:
             tree.remove_ind_(ix)
-            sliced.append(ix)
+        scales = list(spec["scales"])
+        ints = [np.array(a, dtype=object) for a in spec["int_arrays"]]
+        positive = all(int(v) >= 0 for a in ints for v in a.reshape(-1))
+        cz = bool(spec.get("check_zero", False))
+        prefer_einsum = bool(spec.get("prefer_einsum", False))
+        ctx.count("directed")
+    else:
+        while True:
+            inputs, output, size_dict = gen.rand_net(rng, nmin=2, nmax=5 if quick else 6, max_ix=6, max_rank=3, dmax=3)
+            if prod(size_dict[ix] for ix in {ix for t in inputs for ix in t}) <= 2500:
+                break
+        N = len(inputs)
+        path = gen.rand_path(rng, N)
+        tree = ctg.ContractionTree.from_path(inputs, output, size_dict, path=path)
+        present = sorted({ix for t in inputs for ix in t})
+        sliced = []
+        cand = [ix for ix in present if size_dict[ix] > 1]
+        if cand and rng.random() < 0.75:
+            for ix in rng.sample(cand, rng.randint(1, min(3, len(cand)))):
+                tree.remove_ind_(ix)
+                sliced.append(ix)
+        zero_mode = None
+        zr = rng.random()
+        if sliced and zr < 0.3:
+            zero_mode = set(sliced)
+        elif zr < 0.35:
+            zero_mode = set(present)
+        scales = draw_scales(rng, N)
+        ints, positive = draw_ints(rng, inputs, size_dict, zero_mode)
+        cz = rng.random() < 0.25
+        prefer_einsum = rng.random() < 0.4
     out_sliced = [ix for ix in output if ix in tree.sliced_inds]
     inner_sliced = [ix for ix in tree.sliced_inds if ix not in output]
-    zero_mode = None
-    zr = rng.random()
-    if sliced and zr < 0.3:
-        zero_mode = set(sliced)
-    elif zr < 0.35:
-        zero_mode = set(present)
-    scales = draw_scales(rng, N)
-    ints, positive = draw_ints(rng, inputs, size_dict, zero_mode)
-    cz = rng.random() < 0.25
-    prefer_einsum = rng.random() < 0.4
     rec = {"inputs": inputs, "output": output, "size_dict": size_dict, "path": path,
            "sliced": list(tree.sliced_inds), "scales": scales, "check_zero": cz,
            "prefer_einsum": prefer_einsum, "int_arrays": [a.tolist() for a in ints]}
@@ -604,6 +622,18 @@ def run_case(ctx, ci, rng, cases, records):
     ctx.count("positive_arrays" if positive else "mixed_sign_arrays")
     if abs(sum(scales)) > 300:
         ctx.count("sum_of_scales_beyond_float64")
+        if out_sliced:
+            # total magnitude outside 1e+-308 AND a sliced output index: the rescaling `mi * 10**(ei - emax)` must
+            # use the difference of exponents (a hoisted 10**-emax overflows / underflows here)
+            ctx.count("beyond_float64_with_sliced_output")
+    # the first pairwise steps that contract two leaves directly: |s_l + s_r| > 154 makes the squares of the raw
+    # product leave the float64 range (a norm-based factor would overflow / underflow; max|.| does not)
+    for p_, l_, r_ in tree.traverse():
+        if len(l_) == 1 and len(r_) == 1:
+            (il,), (ir,) = tuple(l_), tuple(r_)
+            if abs(scales[il] + scales[ir]) > 154:
+                ctx.count("leaf_pair_scales_beyond_154")
+                break
 
     farrs = to_float_arrays(ints, scales)
     xarrs = to_exact_arrays(ints, scales)
@@ -655,8 +685,16 @@ def run_case(ctx, ci, rng, cases, records):
         zero_slices = [0]
     if zero_slices:
         ctx.count("has_zero_slice")
+        if tree.sliced_inds and 0 in zero_slices and not result_zero:
+            ctx.count("zero_first_slice")
+        if cz and tree.sliced_inds and not result_zero:
+            ctx.count("zero_slice_with_check_zero")
     if len(zero_slices) > 1:
         ctx.count("has_two_zero_slices")
+        if not result_zero:
+            ctx.count("several_zero_slices_nonzero_total")
+    if tree.sliced_inds and len(zero_slices) == nslices:
+        ctx.count("all_slices_zero")
 
     # ---- correspondence: the Coq model on the same program and slices -------------------
     slice_arrays = [tree.slice_arrays(xarrs, k) for k in range(nslices)]
@@ -808,6 +846,46 @@ def run_case(ctx, ci, rng, cases, records):
                 ctx.fail("float exponent %r differs from the exact run's %r" % (float(fout[1]), ee),
                          dict(rec), found_input=False)
             ctx.count("float_trace_checked")
+
+
+def _chain(n):
+    syms = "abcdefgh"
+    return [[syms[i], syms[i + 1]] for i in range(n)], [syms[0], syms[n]], {c: 2 for c in syms[:n + 1]}, [[0, 1]] * (n - 1)
+
+
+def directed_specs():
+    """cases the random generator must never stop producing, built deliberately every run: zero FIRST slice;
+    several zero slices (all but one; all of one output chunk; all); the same with check_zero=True (sum branch --
+    the stack branch with check_zero is the known finding); total magnitude 1e+-500 with a sliced OUTPUT index;
+    two directly contracted leaves whose scales sum to +-200."""
+    M = [[1, 2], [3, 4]]
+    specs = []
+    mm = {"inputs": [["a", "b"], ["b", "c"]], "output": ["a", "c"], "path": [[0, 1]]}
+    for sc in ([100, 100], [-100, -100], [100, -100]):
+        for cz in (False, True):
+            # b = 0 (first slice) zero; b = 0, 1 zero (all but the last); sliced inner index
+            specs.append(dict(mm, size_dict={"a": 2, "b": 3, "c": 2}, sliced=["b"], scales=sc, check_zero=cz,
+                              int_arrays=[[[0, 1, 2], [0, 3, 1]], [[1, 2], [3, 4], [2, 1]]]))
+            specs.append(dict(mm, size_dict={"a": 2, "b": 3, "c": 2}, sliced=["b"], scales=sc, check_zero=cz,
+                              int_arrays=[[[0, 0, 2], [0, 0, 1]], [[1, 2], [3, 4], [2, 1]]]))
+        # sliced OUTPUT index a: chunk a = 0 zero (first), a = 0, 1 zero, inner b sliced too (a chunk made of zero slices)
+        specs.append(dict(mm, size_dict={"a": 3, "b": 2, "c": 2}, sliced=["a"], scales=sc,
+                          int_arrays=[[[0, 0], [1, 2], [3, 1]], M]))
+        specs.append(dict(mm, size_dict={"a": 3, "b": 2, "c": 2}, sliced=["a", "b"], scales=sc,
+                          int_arrays=[[[0, 0], [0, 0], [3, 1]], M]))
+        specs.append(dict(mm, size_dict={"a": 3, "b": 2, "c": 2}, sliced=["a", "b"], scales=sc,
+                          int_arrays=[[[0, 2], [1, 0], [3, 1]], M]))
+        # every slice zero (result zero: exempt for the oracle, still compared with the model: emax = -inf)
+        specs.append(dict(mm, size_dict={"a": 3, "b": 2, "c": 2}, sliced=["a"], scales=sc,
+                          int_arrays=[[[0, 0], [0, 0], [0, 0]], M]))
+    # total magnitude 1e+-500 (five matrices of 1e+-100), sliced output index (and an inner one), zero chunk or not
+    ins, out, sizes, path = _chain(5)
+    for sgn in (100, -100):
+        for first in ([[1, 2], [3, 1]], [[0, 0], [3, 1]], [[1, 0], [2, 0]]):
+            for sl in (["a"], ["a", "c"], ["f", "b"]):
+                specs.append({"inputs": ins, "output": out, "size_dict": sizes, "path": path, "sliced": sl,
+                              "scales": [sgn] * 5, "int_arrays": [first] + [M] * 4})
+    return specs
 
 
 def probe_known(ctx):
@@ -1048,10 +1126,20 @@ def run(ctx):
     probe_known(ctx)
     corpus_cases(ctx)
     cases, records = [], []
+    for spec in directed_specs():
+        run_case(ctx, len(cases), rng, cases, records, spec=spec)
+    ndirected = len(cases)
     for ci in range(ctx.n(160, 2500)):
-        run_case(ctx, ci, rng, cases, records)
+        run_case(ctx, ndirected + ci, rng, cases, records)
     interface_cases(ctx, rng, ctx.n(150, 2000))
     ctx.log("generated %d correspondence cases" % len(cases))
+    # generator floor: the input classes that past defects and seeded changes needed must have been produced
+    feats = ctx.coverage["features"]
+    for need in ("zero_first_slice", "several_zero_slices_nonzero_total", "zero_slice_with_check_zero",
+                 "all_slices_zero", "beyond_float64_with_sliced_output", "leaf_pair_scales_beyond_154",
+                 "plain_overflows", "plain_underflows"):
+        if not feats.get(need):
+            raise RuntimeError("generator no longer produces the input class %r" % need)
     failing = eval_cases(ctx, cases, chunk=10 if ctx.quick else 25)
     for idx, label, val in failing:
         rec = dict(records[idx]) if idx < len(records) else {}
